@@ -112,6 +112,16 @@ def _case(args):
             st1.jobs.append(o1); st2.jobs.append(o2)
             d = H.diff(snapshot_by_id(sysm), snapshot_by_id(s2), rel=1e-9)
             if d: f.append(f"loaded-system-not-live:{[a for _, a in d][:4]}")
+            # single-object links of the loaded system can be replaced like those of the original (the old target lets go)
+            servers = [o for o in [raw(x) for x in sysm.all_linked_objects] if type(o).__name__ == "Server"]
+            other = next((sv for sv in servers if sv.id != raw(o1.server).id), None)
+            if other is not None and not d:
+                o1.server = other; o2.server = flat[other.id]
+                d = H.diff(snapshot_by_id(sysm), snapshot_by_id(s2), rel=1e-9)
+                if d: f.append(f"loaded-system-not-live-after-a-link-edit:{[a for _, a in d][:4]}")
+                for x1 in servers:
+                    j1 = sorted(raw(j).id for j in x1.jobs); j2_ = sorted(raw(j).id for j in flat[x1.id].jobs)
+                    if j1 != j2_: f.append(f"loaded-system-reverse-links-differ:{x1.name}: {len(j1)} jobs vs {len(j2_)}")
         out["fails"] = f
         if f: out["status"] = "fails"
         out["shared"] = kind != "services" and H.has_shared_job(b.spec)
